@@ -147,6 +147,10 @@ struct Mapped {
     init_norm: f64,
     cscale: f64,
     equilibrated: bool,
+    /// what the documented optimality test allows the duality gap of THIS run to be, in the units of the
+    /// original objective: max(tol_gap_abs, tol_gap_rel * max(1, min(|p|,|d|))) / cscale with the tolerances of the
+    /// run's own status (full or reduced) and its own reported objective values
+    tol_gap: f64,
 }
 
 fn map_back(v: &Variant, r: &SolveResult, n: usize, m: usize) -> Option<Mapped> {
@@ -164,7 +168,9 @@ fn map_back(v: &Variant, r: &SolveResult, n: usize, m: usize) -> Option<Mapped> 
         z[v.rowmap[i]] = r.z[i] / v.cscale;
     }
     let init_norm = r.events.first().map(|e| e.x.iter().chain(&e.s).chain(&e.z).fold(0.0f64, |m, v| if v.is_finite() { m.max(v.abs()) } else { f64::INFINITY })).unwrap_or(0.0);
-    Some(Mapped { status: r.status, x, s, z, tags: v.tags.clone(), init_norm, cscale: v.cscale, equilibrated: v.st.equilibrate_enable })
+    let (ga, gr) = if r.status == SolverStatus::Solved { (v.st.tol_gap_abs, v.st.tol_gap_rel) } else { (v.st.reduced_tol_gap_abs, v.st.reduced_tol_gap_rel) };
+    let tol_gap = f64::max(ga, gr * f64::max(1.0, f64::min(r.obj_val.abs(), r.obj_val_dual.abs()))) / v.cscale;
+    Some(Mapped { status: r.status, x, s, z, tags: v.tags.clone(), init_norm, cscale: v.cscale, equilibrated: v.st.equilibrate_enable, tol_gap })
 }
 
 struct Terms {
@@ -397,6 +403,17 @@ fn w_variants(ctx: &mut Ctx) {
                 let delta_ji = rdx2.f().abs() + rpz2.f().abs() + (-sz2).max(0.0);
                 let diff = (ti.p - tj.p).f();
                 let bound_ij = gap_i + delta_ji + 64.0 * 1.1e-16 * nn * (mag + ti.p.f().abs() + tj.p.f().abs());
+                // the same inequality with the gap the documentation ALLOWS run i instead of the one it happens to
+                // have: objectives of two solved runs agree to within the documented gap tolerance plus what the
+                // residuals can move them (a configuration that quietly loosens its own stopping test shows here)
+                if mi.tol_gap.is_finite() {
+                    let bound_doc = mi.tol_gap * (1.0 + 1e-6) + delta_ji + 64.0 * 1.1e-16 * nn * (mag + ti.p.f().abs() + tj.p.f().abs());
+                    ctx.observe_max("objective_difference_over_documented_bound", if bound_doc > 0.0 { diff / bound_doc } else { 0.0 });
+                    if !(diff <= bound_doc * (1.0 + 1e-6) + 1e-300) {
+                        ctx.violation("objectives_disagree_beyond_documented_gap", "objectives_disagree_beyond_documented_gap", wl, case, json!({"base": base.to_json(), "run_i": {"tags": mi.tags, "p": ti.p.f(), "d": ti.d.f(), "status": status_name(mi.status), "documented_gap_allowance": mi.tol_gap}, "run_j": {"tags": mj.tags, "p": tj.p.f()}, "difference": diff, "bound": bound_doc}));
+                        break 'outer;
+                    }
+                }
                 if !(diff <= bound_ij * (1.0 + 1e-6) + 1e-300) {
                     ctx.violation("objectives_disagree", "objectives_disagree", wl, case, json!({"base": base.to_json(), "run_i": {"tags": mi.tags, "p": ti.p.f()}, "run_j": {"tags": mj.tags, "p": tj.p.f()}, "difference": diff, "bound": bound_ij}));
                     break 'outer;
